@@ -11,17 +11,34 @@
 (***************************************************************************)
 EXTENDS Integers, Sequences, FiniteSets, TLC
 
-CONSTANTS Procs, FileExists, LockFirst
+\* (the @type comments are for Apalache, see OpenLock_Ind.tla; TLC ignores them)
+CONSTANTS
+    \* @type: Set(Int);
+    Procs,
+    \* @type: Bool;
+    FileExists,
+    \* @type: Bool;
+    LockFirst
 
-VARIABLES pc,        \* process -> hook point
-          exists,    \* the path exists
-          inited,    \* the file holds valid header pages
-          len,       \* 0 or >0: the file has been allocated
-          holder,    \* process holding the exclusive lock (0 none)
-          markers,   \* committed markers, in commit order
-          seen,      \* process -> markers it found when it got in
-          closedBefore, \* process -> markers committed by processes that had closed before it started
-          result     \* process -> "" | "ok" | failure
+VARIABLES
+    \* @type: Int -> Str;
+    pc,        \* process -> hook point
+    \* @type: Bool;
+    exists,    \* the path exists
+    \* @type: Bool;
+    inited,    \* the file holds valid header pages
+    \* @type: Int;
+    len,       \* 0 or >0: the file has been allocated
+    \* @type: Int;
+    holder,    \* process holding the exclusive lock (0 none)
+    \* @type: Seq(Int);
+    markers,   \* committed markers, in commit order
+    \* @type: Int -> Seq(Int);
+    seen,      \* process -> markers it found when it got in
+    \* @type: Int -> Seq(Int);
+    closedBefore, \* process -> markers committed by processes that had closed before it started
+    \* @type: Int -> Str;
+    result     \* process -> "" | "ok" | failure
 
 vars == <<pc, exists, inited, len, holder, markers, seen, closedBefore, result>>
 
